@@ -111,9 +111,10 @@ def run(ctx):
             part = [frozenset(x) for x in groups.values()]
             n_sw += 1
             key = "%s/side-match@%s" % (g.short, ",".join(sorted("".join(sorted(p)) for p in part)))
+            refines = lambda P, Q: all(any(blk <= q for q in Q) for blk in P)
             if len(part) == 4:
                 ctx.ok("R09.4", key, "four-way match")
-            elif set(part) == set(AX) or set(part) == set(ED):
+            elif refines(part, AX) or refines(part, ED):
                 ctx.ok("R09.4", key, "partition %s" % [sorted(p) for p in part])
             else:
                 ctx.violation("R09.4", key, "%s matches Side with the partition %s, which is neither the axis split {Left,Right}/{Top,Bottom} nor the edge split {Left,Bottom}/{Top,Right}" % (g.short, [sorted(p) for p in part]), gb.site(sbi))
